@@ -7,7 +7,8 @@ from . import C06 as c06
 
 RULE = ("charts with a random subset (0-6) of the 40 tracks; selections: None, [], single pairs, subsets, supersets, pairs absent from the file, pairs differing in both instrument and difficulty "
         "(cross products), duplicated pairs, a tuple instead of a list; optionally ONE instrument section's body replaced by garbage, by another track's body, or by a body that cannot be built "
-        "(forced first note, note governed by a zero tempo); judged against the implementation's unrestricted parse of the ORIGINAL text: metadata / sync / events equal, every (instrument, "
+        "(forced first note, note governed by a zero tempo); optionally extra sections whose names merely BEGIN with a track's name ([ExpertSingle_old], [HardDrums (disabled)], ...) "
+        "with a copy of the real body, another valid body or an unbuildable one, placed right after the real section or anywhere; judged against the implementation's unrestricted parse of the ORIGINAL text: metadata / sync / events equal, every (instrument, "
         "difficulty) other than the replaced one has exactly the unrestricted track if selected and none otherwise, no empty instrument entry, and a selection alone never turns a successful "
         "parse into a failure (a replaced body may only when it is selected). Non-trivial: a selection other than None or a replaced body; distinct by (text, selection)")
 ASSUMPTIONS = ["section names are distinct (a duplicated header overwrites, as dict assignment does, and is outside the property)"]
@@ -75,6 +76,24 @@ def gen(rng):
             body = ["  " + l for l in ig.section_lines(rng, ig.gen_groups(rng, 192, 2), 192)]
         secs2[idx] = (h, body)
         changed = key_of_header(h)
+    if rng.random() < 0.35:
+        # sections that are NOT tracks but whose names begin with a track's name (a parked copy, a disabled part): they must
+        # neither replace, add nor break any track, wherever they stand relative to the real section
+        for _ in range(rng.choice([1, 1, 2])):
+            base = rng.choice(hs) if hs and rng.random() < 0.7 else rng.choice(all_headers)
+            tag = base + rng.choice(["_old", "2", " (disabled)", "Backup", ".bak", " ", "x"])
+            if tag in [t for t, _ in secs2]:
+                continue
+            r = rng.random()
+            if r < 0.4 and base in dict(secs2):
+                body = list(dict(secs2)[base])
+            elif r < 0.75:
+                body = ["  " + l for l in ig.section_lines(rng, ig.gen_groups(rng, 192, 2), 192)]
+            else:
+                body = rng.choice(BAD_BODIES[4:])
+            names = [t for t, _ in secs2]
+            pos = names.index(base) + 1 if base in names and rng.random() < 0.7 else rng.randint(0, len(secs2))
+            secs2.insert(pos, (tag, body))
     return secs, secs2, sel, changed, mode
 
 
